@@ -291,88 +291,7 @@ def m5(run: Run, prog: Program):
 _AXIS_OF = {"in": 0, "out": 1}
 
 
-def _fold(node, consts: dict):
-    """Copy of a function body with names / self attributes of `consts`
-    replaced by constants, comparisons between constants evaluated, and
-    if / conditional expressions / boolean operators with a constant test
-    pruned."""
-    import copy
-
-    def const(e):
-        return isinstance(e, ast.Constant)
-
-    class F(ast.NodeTransformer):
-        def visit_Name(self, n):
-            if isinstance(n.ctx, ast.Load) and n.id in consts:
-                return ast.copy_location(ast.Constant(consts[n.id]), n)
-            return n
-
-        def visit_Attribute(self, n):
-            self.generic_visit(n)
-            key = ast.unparse(n)
-            if isinstance(n.ctx, ast.Load) and key in consts:
-                return ast.copy_location(ast.Constant(consts[key]), n)
-            return n
-
-        def visit_Compare(self, n):
-            self.generic_visit(n)
-            if len(n.ops) == 1 and const(n.left) and const(n.comparators[0]):
-                a, b = n.left.value, n.comparators[0].value
-                op = n.ops[0]
-                if isinstance(op, ast.Eq):
-                    return ast.copy_location(ast.Constant(a == b), n)
-                if isinstance(op, ast.NotEq):
-                    return ast.copy_location(ast.Constant(a != b), n)
-            if len(n.ops) == 1 and const(n.left) and isinstance(
-                    n.comparators[0], (ast.Tuple, ast.List, ast.Set)) and all(
-                    const(e) for e in n.comparators[0].elts):
-                vals = [e.value for e in n.comparators[0].elts]
-                if isinstance(n.ops[0], ast.In):
-                    return ast.copy_location(ast.Constant(n.left.value in vals), n)
-                if isinstance(n.ops[0], ast.NotIn):
-                    return ast.copy_location(ast.Constant(n.left.value not in vals), n)
-            return n
-
-        def visit_UnaryOp(self, n):
-            self.generic_visit(n)
-            if isinstance(n.op, ast.Not) and const(n.operand):
-                return ast.copy_location(ast.Constant(not n.operand.value), n)
-            return n
-
-        def visit_BoolOp(self, n):
-            self.generic_visit(n)
-            is_and = isinstance(n.op, ast.And)
-            vals = []
-            for v in n.values:
-                if const(v):
-                    if bool(v.value) != is_and:      # absorbing element
-                        return ast.copy_location(ast.Constant(not is_and), n)
-                    continue                          # neutral element
-                vals.append(v)
-            if not vals:
-                return ast.copy_location(ast.Constant(is_and), n)
-            if len(vals) == 1:
-                return vals[0]
-            n.values = vals
-            return n
-
-        def visit_IfExp(self, n):
-            self.generic_visit(n)
-            if const(n.test):
-                return n.body if n.test.value else n.orelse
-            return n
-
-        def visit_If(self, n):
-            n.test = self.visit(n.test)
-            if const(n.test):
-                out = []
-                for st in (n.body if n.test.value else n.orelse):
-                    r = self.visit(st)
-                    out.extend(r if isinstance(r, list) else [r] if r is not None else [])
-                return out or [ast.copy_location(ast.Pass(), n)]
-            self.generic_visit(n)
-            return n
-    return F().visit(copy.deepcopy(node))
+from .idioms import fold_constants as _fold  # noqa: E402
 
 
 def _axis_sums(fnode):
